@@ -349,6 +349,56 @@ func (hs *serverHandshakeState) checkForResumption() bool {
 	if hs.suite == nil {
 		return false
 	}
+	// 会话重用不得绕过当前的客户端认证策略：原握手在该策略下无法通过的会话不予重用。
+	if !hs.sessionSatisfiesClientAuth() {
+		return false
+	}
+	return true
+}
+
+// sessionSatisfiesClientAuth 判断缓存会话中记录的客户端证书是否满足当前配置的客户端认证策略：
+// 要求证书的策略下会话必须带有客户端证书；要求验证的策略下证书链须在当前 ClientCAs 与时间下通过验证
+// （验证选项与 processCertsFromClient 相同）。不满足时回退到完整握手。
+func (hs *serverHandshakeState) sessionSatisfiesClientAuth() bool {
+	c := hs.c
+	certs := hs.sessionState.peerCertificates
+	if len(certs) == 0 {
+		return !requiresClientCert(c.config.ClientAuth)
+	}
+	if c.config.ClientAuth < VerifyClientCertIfGiven {
+		return true
+	}
+	isECDHE := hs.sessionState.cipherSuite == ECDHE_SM4_CBC_SM3 || hs.sessionState.cipherSuite == ECDHE_SM4_GCM_SM3
+	if isECDHE && len(certs) < 2 {
+		return false
+	}
+	keyUsages := []x509.ExtKeyUsage{x509.ExtKeyUsageClientAuth, x509.ExtKeyUsageServerAuth}
+	if c.config.ClientAuth == RequireAndVerifyAnyKeyUsageClientCert {
+		keyUsages = []x509.ExtKeyUsage{x509.ExtKeyUsageAny}
+	}
+	opts := x509.VerifyOptions{
+		Roots:         c.config.ClientCAs,
+		CurrentTime:   c.config.time(),
+		Intermediates: x509.NewCertPool(),
+		KeyUsages:     keyUsages,
+	}
+	start := 1
+	if isECDHE {
+		start = 2
+	}
+	for _, cert := range certs[start:] {
+		opts.Intermediates.AddCert(cert)
+	}
+	chains, err := certs[0].Verify(opts)
+	if err != nil {
+		return false
+	}
+	if isECDHE {
+		if _, err := certs[1].Verify(opts); err != nil {
+			return false
+		}
+	}
+	c.verifiedChains = chains
 	return true
 }
 
